@@ -5,22 +5,22 @@
 From PW Require Import Child.Sem Gen.Skel Child.Runs Child.Proofs.
 
 (* every ending that lets the child report - return, its own exception, a graceful terminate
-   landing inside the running target - synchronises the state, for thread and process kinds,
+   landing inside the running target - synchronises the state, for thread, process and remote kinds,
    one-shot and persistent *)
 Theorem C16_reporting_endings_synchronise :
   forall k pers,
     state_synced k true (run k pers TReturn []) = true
     /\ state_synced k true (run k pers TRaise []) = true
-    /\ state_synced k true (run k pers TLoop [(call_point k, AWTE)]) = true.
+    /\ state_synced k true (run k pers TLoop [(call_point k, term_action k)]) = true.
 Proof. exact c16_reporting_endings. Qed.
 
 (* a kill at ANY statement boundary (also part-way through a send): the parent takes over a
    state exactly when the complete result message had been written before the kill *)
 Theorem C16_kill_synchronises_only_complete_reports :
-  forall pers t p a, p < BOUND -> c16_check (pers, t, p, a) = true.
+  forall k pers t p a, a <> ATerm -> p < BOUND_R -> c16_check (k, pers, t, p, a) = true.
 Proof.
-  intros pers t p a Hp. apply (proj1 (forallb_forall c16_check _) c16_all).
-  apply in_prod; [apply in_prod; [apply in_prod; [apply in_bools|apply in_targets]|apply in_seq; unfold BOUND in *; lia]|apply in_actions].
+  intros k pers t p a Ha Hp. apply (proj1 (forallb_forall c16_check _) c16_all).
+  apply in_prod; [apply in_prod; [apply in_prod; [apply in_prod; [apply in_kinds3|apply in_bools]|apply in_targets]|apply in_seq; unfold BOUND_R in *; lia]|apply in_actions; exact Ha].
 Qed.
 
 Print Assumptions C16_reporting_endings_synchronise.
